@@ -46,6 +46,24 @@ func c08Prog(r *gen.Rand) gen.ProgCfg {
 func cycleDoc(r *gen.Rand) any {
 	k := gen.PickAny(r, gen.DefaultKeys)
 	k2 := gen.PickAny(r, gen.DefaultKeys)
+	if r.Chance(0.25) {
+		// map keys that evaluate to something that is not a string (the three
+		// key-evaluation sites: reference phase, evaluation phase, nested $repeat)
+		switch r.Intn(5) {
+		case 0:
+			return map[string]any{"$replace:" + k: 1, k: []any{1}}
+		case 1:
+			return map[string]any{k: map[string]any{"$value": map[string]any{"$repeat": map[string]any{"$repeat": r.Range(1, 2), k2: 1}}}}
+		case 2:
+			return map[string]any{k: []any{map[string]any{"$repeat": 2, k2: map[string]any{"$value": map[string]any{"$repeat": 1}}}}}
+		case 3:
+			// a decoded document is evaluated as it comes: its root is not
+			// anybody's map value, so a key named $repeat survives to key evaluation
+			return map[string]any{k: map[string]any{"$decode": r.Pick("yaml", "yaml", "json", "toml"), "$value": "\"$repeat\": {\"$repeat\": 1, \"z\": 2}\n"}}
+		default:
+			return map[string]any{"$merge:" + k: map[string]any{"x": 1}, k: true}
+		}
+	}
 	switch r.Intn(10 + r.Intn(2)*r.Intn(2)) {
 	case 0:
 		return map[string]any{k: `$"{` + k + `}"`}
